@@ -4,6 +4,7 @@ mod out;
 mod p_c02;
 mod p_c09;
 mod p_c20;
+mod p_cas;
 mod p_dom;
 mod p_get;
 mod p_hist;
@@ -17,6 +18,9 @@ mod dump;
 mod rng;
 mod tables;
 mod witness;
+
+#[global_allocator]
+static ALLOC: p_cas::Counting = p_cas::Counting;
 
 fn main() {
     let args: Vec<String> = std::env::args().collect();
@@ -35,6 +39,7 @@ fn main() {
                 "C02" => p_c02::run(&mut out, tier, seed),
                 "C09" => p_c09::run(&mut out, tier, seed),
                 "C20" => p_c20::run(&mut out, tier, seed),
+                "C18" => p_cas::run(&mut out, tier, seed),
                 "C17" => p_simd::run(&mut out, tier, seed),
                 "C04" => p_typed::run_c04(&mut out, tier, seed),
                 "C19" => p_typed::run_c19(&mut out, tier, seed),
